@@ -254,20 +254,18 @@ theorem insert_spec {cmp : K → K → Ordering} (hl : LawfulCmp cmp) (s : SkipL
   obtain ⟨l1, l2, hsp⟩ := exists_split hl k s.nodes hi.sorted
   have hfind := findGE_split hsp hi.heights
   have hnodes := hsp.eq
-  have hdup : (match (if l1.length < s.nodes.length then some l1.length else none).bind (s.nodes[·]?) with
-      | some n => cmp k n.key == Ordering.eq
-      | none => false) = false := by
-    split
-    · rename_i n hn
-      have hmem : n ∈ s.nodes := by
-        split at hn
-        · exact List.mem_of_getElem? hn
-        · cases hn
-      simpa using hne n hmem
-    · rfl
   refine ⟨{ s with nodes := l1 ++ ⟨k, v, h⟩ :: l2 }, ?_, ?_, ?_, ?_, ?_⟩
-  · simp only [SkipList.insert, hfind, hdup]
-    simp [hnodes]
+  · simp only [SkipList.insert, hfind]
+    rw [if_neg]
+    · simp [hnodes]
+    · split
+      · rename_i n hn
+        have hmem : n ∈ s.nodes := by
+          split at hn
+          · exact List.mem_of_getElem? hn
+          · cases hn
+        simpa using hne n hmem
+      · simp
   · have hsorted := hi.sorted
     unfold Sorted at hsorted
     rw [hnodes, List.pairwise_append] at hsorted
@@ -336,5 +334,286 @@ theorem insertAll_spec {cmp : K → K → Ordering} (hl : LawfulCmp cmp) :
     · simp only [insertAll, hins]; exact hall
     · rw [hmap2, hmap1]; rfl
     · rw [hlen2, hlen1]; simp; omega
+
+/-! ### Reads on a well-formed list -/
+
+theorem bind_findGE {cmp : K → K → Ordering} {s : SkipList K V} {key : K}
+    {l1 l2 : List (SNode K V)} (hsp : Split cmp key s.nodes l1 l2)
+    (hh : ∀ n ∈ s.nodes, 1 ≤ n.height) :
+    (findGE cmp s key).1.bind (s.nodes[·]?) = l2.head? := by
+  cases l2 with
+  | nil => rw [findGE_nil hsp hh]; rfl
+  | cons n t =>
+    rw [findGE_cons hsp hh, hsp.eq]
+    simp
+
+theorem get_spec {cmp : K → K → Ordering} (hl : LawfulCmp cmp) (s : SkipList K V)
+    (hi : Inv cmp s.nodes) (k : K) :
+    get cmp s k = specGet cmp (s.nodes.map fun n => (n.key, n.val)) k := by
+  obtain ⟨l1, l2, hsp⟩ := exists_split hl k s.nodes hi.sorted
+  unfold SkipList.get specGet
+  rw [bind_findGE hsp hi.heights, hsp.eq, List.find?_map, List.find?_append]
+  have h1 : List.find? ((fun p : K × V => cmp k p.1 == Ordering.eq) ∘ fun n : SNode K V => (n.key, n.val)) l1
+      = none := by
+    rw [List.find?_eq_none]
+    intro n hn
+    simp [hsp.lo n hn]
+  rw [h1]
+  cases l2 with
+  | nil => simp
+  | cons n t =>
+    by_cases hc : cmp k n.key = .eq
+    · simp [hc]
+    · have h2 : List.find? ((fun p : K × V => cmp k p.1 == Ordering.eq) ∘ fun n : SNode K V => (n.key, n.val)) t
+          = none := by
+        rw [List.find?_eq_none]
+        intro m hm
+        simp [hsp.tl n t rfl m hm]
+      simp [hc, h2]
+
+theorem iterFrom_spec {cmp : K → K → Ordering} (hl : LawfulCmp cmp) (s : SkipList K V)
+    (hi : Inv cmp s.nodes) (k : K) :
+    iterFrom cmp s k = specFrom cmp (s.nodes.map fun n => (n.key, n.val)) k := by
+  obtain ⟨l1, l2, hsp⟩ := exists_split hl k s.nodes hi.sorted
+  unfold iterFrom specFrom
+  have hf1 : List.filter (fun p : K × V => cmp k p.1 != Ordering.gt) (l1.map fun n => (n.key, n.val)) = [] := by
+    rw [List.filter_eq_nil_iff]
+    intro p hp
+    obtain ⟨n, hn, rfl⟩ := List.mem_map.1 hp
+    simp [hsp.lo n hn]
+  have hf2 : List.filter (fun p : K × V => cmp k p.1 != Ordering.gt) (l2.map fun n => (n.key, n.val))
+      = l2.map fun n => (n.key, n.val) := by
+    rw [List.filter_eq_self]
+    intro p hp
+    obtain ⟨n, hn, rfl⟩ := List.mem_map.1 hp
+    simpa using hsp.ge n hn
+  have hR : List.filter (fun p : K × V => cmp k p.1 != Ordering.gt) (s.nodes.map fun n => (n.key, n.val))
+      = l2.map fun n => (n.key, n.val) := by
+    rw [hsp.eq, List.map_append, List.filter_append, hf1, hf2]; rfl
+  rw [hR]
+  cases l2 with
+  | nil => rw [findGE_nil hsp hi.heights]; rfl
+  | cons n t =>
+    rw [findGE_cons hsp hi.heights]
+    simp [hsp.eq]
+
+theorem takeUpTo_spec {cmp : K → K → Ordering} (hl : LawfulCmp cmp) (hi : K) :
+    ∀ l : List (SNode K V), Sorted cmp l →
+      takeUpTo cmp hi l = (l.map fun n => (n.key, n.val)).filter fun p => cmp p.1 hi != .gt := by
+  intro l
+  induction l with
+  | nil => intro _; rfl
+  | cons n ns ih =>
+    intro hs
+    have hs' := List.pairwise_cons.1 hs
+    simp only [takeUpTo, List.map_cons, List.filter_cons]
+    cases hc : cmp n.key hi with
+    | lt => simp [ih hs'.2]
+    | eq =>
+      have : List.filter (fun p : K × V => cmp p.1 hi != Ordering.gt) (ns.map fun n => (n.key, n.val)) = [] := by
+        rw [List.filter_eq_nil_iff]
+        intro p hp
+        obtain ⟨m, hm, rfl⟩ := List.mem_map.1 hp
+        have h1 : cmp hi m.key = .lt := by
+          rw [← hl.eq_left _ _ m.key hc]; exact hs'.1 m hm
+        simp [cmp_flip_lt hl h1]
+      simp [this]
+    | gt =>
+      have : List.filter (fun p : K × V => cmp p.1 hi != Ordering.gt) (ns.map fun n => (n.key, n.val)) = [] := by
+        rw [List.filter_eq_nil_iff]
+        intro p hp
+        obtain ⟨m, hm, rfl⟩ := List.mem_map.1 hp
+        have h1 : cmp hi m.key = .lt := hl.trans_lt _ _ _ (cmp_flip_gt hl hc) (hs'.1 m hm)
+        simp [cmp_flip_lt hl h1]
+      simp [this]
+
+theorem iterBetween_spec {cmp : K → K → Ordering} (hl : LawfulCmp cmp) (s : SkipList K V)
+    (hi : Inv cmp s.nodes) (lo hi' : K) :
+    iterBetween cmp s lo hi' = specBetween cmp (s.nodes.map fun n => (n.key, n.val)) lo hi' := by
+  obtain ⟨l1, l2, hsp⟩ := exists_split hl lo s.nodes hi.sorted
+  unfold iterBetween specBetween
+  by_cases hc : (cmp lo hi' == .gt) = true
+  · simp [hc]
+  · simp only [hc]
+    have hs2 : Sorted cmp l2 := by
+      have := hi.sorted
+      unfold Sorted at this
+      rw [hsp.eq, List.pairwise_append] at this
+      exact this.2.1
+    have hf1 : List.filter (fun p : K × V => cmp lo p.1 != Ordering.gt && cmp p.1 hi' != Ordering.gt)
+        (l1.map fun n => (n.key, n.val)) = [] := by
+      rw [List.filter_eq_nil_iff]
+      intro p hp
+      obtain ⟨n, hn, rfl⟩ := List.mem_map.1 hp
+      simp [hsp.lo n hn]
+    have hf2 : List.filter (fun p : K × V => cmp lo p.1 != Ordering.gt && cmp p.1 hi' != Ordering.gt)
+        (l2.map fun n => (n.key, n.val))
+        = List.filter (fun p : K × V => cmp p.1 hi' != Ordering.gt) (l2.map fun n => (n.key, n.val)) := by
+      apply List.filter_congr
+      intro p hp
+      obtain ⟨n, hn, rfl⟩ := List.mem_map.1 hp
+      have := hsp.ge n hn
+      simp [this]
+    have hR : List.filter (fun p : K × V => cmp lo p.1 != Ordering.gt && cmp p.1 hi' != Ordering.gt)
+        (s.nodes.map fun n => (n.key, n.val)) = takeUpTo cmp hi' l2 := by
+      rw [hsp.eq, List.map_append, List.filter_append, hf1, hf2, takeUpTo_spec hl hi' l2 hs2]; rfl
+    rw [hR]
+    cases l2 with
+    | nil => rw [findGE_nil hsp hi.heights]; rfl
+    | cons n t =>
+      rw [findGE_cons hsp hi.heights]
+      simp [hsp.eq]
+
+/-! ### The reference sorted map -/
+
+theorem sortedInsert_perm (cmp : K → K → Ordering) (k : K) (v : V) :
+    ∀ l : List (K × V), (sortedInsert cmp k v l).Perm ((k, v) :: l) := by
+  intro l
+  induction l with
+  | nil => exact List.Perm.refl _
+  | cons p rest ih =>
+    obtain ⟨k', v'⟩ := p
+    simp only [sortedInsert]
+    split
+    · exact ((List.Perm.cons _ ih).trans (List.Perm.swap _ _ _))
+    · exact List.Perm.refl _
+
+theorem sortedInsert_strictAsc {cmp : K → K → Ordering} (hl : LawfulCmp cmp) (k : K) (v : V) :
+    ∀ l : List (K × V), StrictAsc cmp l → (∀ p ∈ l, cmp k p.1 ≠ .eq) →
+      StrictAsc cmp (sortedInsert cmp k v l) := by
+  intro l
+  induction l with
+  | nil => intro _ _; exact List.pairwise_singleton _ _
+  | cons p rest ih =>
+    intro hs hne
+    obtain ⟨k', v'⟩ := p
+    have hs' := List.pairwise_cons.1 hs
+    simp only [sortedInsert]
+    by_cases hc : cmp k k' = .gt
+    · simp only [hc, beq_self_eq_true, if_true]
+      refine List.pairwise_cons.2 ⟨?_, ih hs'.2 (fun p hp => hne p (List.mem_cons_of_mem _ hp))⟩
+      intro b hb
+      rcases List.mem_cons.1 ((sortedInsert_perm cmp k v rest).mem_iff.1 hb) with rfl | hb
+      · exact cmp_flip_gt hl hc
+      · exact hs'.1 b hb
+    · have hc' : (cmp k k' == Ordering.gt) = false := by simpa using hc
+      simp only [hc']
+      have hlt : cmp k k' = .lt := cmp_lt_of_ne hc (hne (k', v') List.mem_cons_self)
+      refine List.pairwise_cons.2 ⟨?_, hs⟩
+      intro b hb
+      rcases List.mem_cons.1 hb with rfl | hb
+      · exact hlt
+      · exact hl.trans_lt _ _ _ hlt (hs'.1 b hb)
+
+theorem foldl_sortedInsert_spec {cmp : K → K → Ordering} (hl : LawfulCmp cmp) :
+    ∀ (ins acc : List (K × V)), StrictAsc cmp acc → DistinctKeys cmp (ins.map (·.1)) →
+      (∀ x ∈ ins, ∀ p ∈ acc, cmp x.1 p.1 ≠ .eq) →
+      StrictAsc cmp (ins.foldl (fun acc p => sortedInsert cmp p.1 p.2 acc) acc) ∧
+        (ins.foldl (fun acc p => sortedInsert cmp p.1 p.2 acc) acc).Perm (acc ++ ins) := by
+  intro ins
+  induction ins with
+  | nil => intro acc hs _ _; simpa using hs
+  | cons x rest ih =>
+    intro acc hs hd hne
+    have hd' := List.pairwise_cons.1 (show List.Pairwise _ (x.1 :: rest.map (·.1)) from hd)
+    have hperm := sortedInsert_perm cmp x.1 x.2 acc
+    have hs1 := sortedInsert_strictAsc hl x.1 x.2 acc hs (hne x List.mem_cons_self)
+    obtain ⟨h1, h2⟩ := ih (sortedInsert cmp x.1 x.2 acc) hs1 hd'.2
+      (by
+        intro y hy p hp
+        rcases List.mem_cons.1 (hperm.mem_iff.1 hp) with rfl | hp
+        · intro he
+          exact hd'.1 y.1 (List.mem_map_of_mem hy) (cmp_flip_eq hl he)
+        · exact hne y (List.mem_cons_of_mem _ hy) p hp)
+    refine ⟨h1, ?_⟩
+    simp only [List.foldl_cons]
+    refine h2.trans ?_
+    refine (List.Perm.append_right rest hperm).trans ?_
+    exact (List.perm_middle (l₁ := acc) (a := x) (l₂ := rest)).symm
+
+/-! ### Main theorems -/
+
+/-- `sortedOf` really is the sorted map of the insertions: strictly ascending and a permutation of them. -/
+theorem sortedOf_spec (cmp : K → K → Ordering) (hl : LawfulCmp cmp) (ins : List (K × V))
+    (hd : DistinctKeys cmp (ins.map (·.1))) :
+    StrictAsc cmp (sortedOf cmp ins) ∧ (sortedOf cmp ins).Perm ins := by
+  have := foldl_sortedInsert_spec hl ins [] List.Pairwise.nil hd (fun _ _ _ hp => nomatch hp)
+  simpa [sortedOf] using this
+
+theorem inv_empty (cmp : K → K → Ordering) : Inv cmp (SkipList.empty : SkipList K V).nodes :=
+  ⟨List.Pairwise.nil, nofun⟩
+
+theorem insertAll_empty {cmp : K → K → Ordering} (hl : LawfulCmp cmp) (ins : List (K × V × Nat))
+    (hd : DistinctKeys cmp (ins.map (·.1))) (hh : ∀ x ∈ ins, 1 ≤ x.2.2) :
+    ∃ s : SkipList K V, insertAll cmp SkipList.empty ins = some s ∧ Inv cmp s.nodes ∧
+      (s.nodes.map fun n => (n.key, n.val)) = sortedOf cmp (ins.map fun x => (x.1, x.2.1)) ∧
+      s.nodes.length = ins.length := by
+  obtain ⟨s, hall, hi, hmap, hlen⟩ :=
+    insertAll_spec hl ins SkipList.empty (inv_empty cmp) hd hh (fun _ _ _ hn => nomatch hn)
+  refine ⟨s, hall, hi, ?_, ?_⟩
+  · rw [hmap, sortedOf, List.foldl_map]; rfl
+  · rw [hlen]; simp [SkipList.empty]
+
+/-- Any insertion order of distinct keys, any heights ≥ 1: the skip list is the sorted map. -/
+theorem skiplist_refines (cmp : K → K → Ordering) (hl : LawfulCmp cmp) (ins : List (K × V × Nat))
+    (hd : DistinctKeys cmp (ins.map (·.1))) (hh : ∀ x ∈ ins, 1 ≤ x.2.2) :
+    ∃ s : SkipList K V, insertAll cmp SkipList.empty ins = some s ∧
+      let m := sortedOf cmp (ins.map fun x => (x.1, x.2.1))
+      s.size = ins.length ∧
+      iterAll s = m ∧
+      (∀ k, get cmp s k = specGet cmp m k) ∧
+      (∀ k, contains cmp s k = (specGet cmp m k).isSome) ∧
+      (∀ k, iterFrom cmp s k = specFrom cmp m k) ∧
+      (∀ lo hi, iterBetween cmp s lo hi = specBetween cmp m lo hi) := by
+  obtain ⟨s, hall, hi, hmap, hlen⟩ := insertAll_empty hl ins hd hh
+  refine ⟨s, hall, ?_⟩
+  intro m
+  refine ⟨hlen, hmap, ?_, ?_, ?_, ?_⟩
+  · intro k; rw [get_spec hl s hi k, hmap]
+  · intro k; unfold contains; rw [get_spec hl s hi k, hmap]
+  · intro k; rw [iterFrom_spec hl s hi k, hmap]
+  · intro lo hi'; rw [iterBetween_spec hl s hi lo hi', hmap]
+
+/-- Inserting a key that compares equal to one already present is refused (the Go code panics). -/
+theorem insert_duplicate_rejected (cmp : K → K → Ordering) (hl : LawfulCmp cmp) (ins : List (K × V × Nat))
+    (hd : DistinctKeys cmp (ins.map (·.1))) (hh : ∀ x ∈ ins, 1 ≤ x.2.2)
+    (s : SkipList K V) (hs : insertAll cmp SkipList.empty ins = some s)
+    (k : K) (v : V) (h : Nat) (hk : ∃ x ∈ ins, cmp k x.1 = .eq) :
+    insert cmp s k v h = none := by
+  obtain ⟨s', hall, hi, hmap, _⟩ := insertAll_empty hl ins hd hh
+  rw [hs] at hall
+  cases hall
+  obtain ⟨x, hx, hkx⟩ := hk
+  -- the inserted key is the key of some node
+  have hd' : DistinctKeys cmp ((ins.map fun x => (x.1, x.2.1)).map (·.1)) := by
+    rw [List.map_map]; exact hd
+  have hperm := (sortedOf_spec cmp hl (ins.map fun x => (x.1, x.2.1)) hd').2
+  have hxm : (x.1, x.2.1) ∈ s.nodes.map fun n => (n.key, n.val) := by
+    rw [hmap]
+    exact hperm.mem_iff.2 (List.mem_map_of_mem (f := fun x : K × V × Nat => (x.1, x.2.1)) hx)
+  obtain ⟨n, hn, hnx⟩ := List.mem_map.1 hxm
+  have hkn : cmp k n.key = .eq := by
+    have : n.key = x.1 := congrArg Prod.fst hnx
+    rw [this]; exact hkx
+  -- it is the head of the `≥ k` part
+  obtain ⟨l1, l2, hsp⟩ := exists_split hl k s.nodes hi.sorted
+  have hn2 : n ∈ l2 := by
+    rw [hsp.eq] at hn
+    rcases List.mem_append.1 hn with hn | hn
+    · have := hsp.lo n hn
+      rw [hkn] at this; cases this
+    · exact hn
+  cases l2 with
+  | nil => cases hn2
+  | cons m t =>
+    have hnm : n = m := by
+      rcases List.mem_cons.1 hn2 with rfl | hn2
+      · rfl
+      · have := hsp.tl m t rfl n hn2
+        rw [hkn] at this; cases this
+    subst hnm
+    simp only [SkipList.insert, findGE_cons hsp hi.heights]
+    rw [if_pos]
+    simp [hsp.eq, hkn]
 
 end SST.Proofs
